@@ -6,6 +6,7 @@ from ..mir import op_base, op_const, short, const_int as const_int_, const_int
 from .panics import resolve_place, pretty_sig
 
 from . import shared
+from ..flow import flow_forward
 
 EXPLANATION = (
     "Sibling agreement and dominance in copy.rs / process_request: (1) every sink variant of DstHalf that copy_half writes to inside its "
@@ -18,7 +19,8 @@ EXPLANATION = (
     ' LINGER: no socket of the proxy is configured for an abortive close (SO_LINGER).'
     ' FWD: stream adapters that implement AsyncRead/AsyncWrite by delegation forward each poll method to the inner method of the same name.'
     ' BUF-ONCE: no second read buffer over the client stream (bytes sent right before a FIN would be dropped with it).'
-    ' H1: the read-ahead of the handshake is written to the other side and flushed (after the write) before the relay starts.')
+    ' H1: the read-ahead of the handshake is written to the other side and flushed (after the write) before the relay starts.'
+    ' FWD also requires the delegating poll method to return the inner result unchanged (a reset is not answered as end-of-stream).')
 RULE_TEXT = "instances = sink variants, transfer arms, exit edges, escape APIs"
 TRUSTED = ["tokio shutdown()/AsyncFd semantics", "dropping a socket closes it"]
 NOT_DECIDED = ["FIN vs RST timing, promptness", "TLS close_notify"]
@@ -262,6 +264,19 @@ def run(chk, prog):
             okf = bool(same)
             chk.instance("FWD", "%s:%s" % (g.file, g.line), "%s::%s of %s delegates to the inner %s" % (tname, it["name"], sty, it["name"]), okf,
                          "delegates to %s" % sorted(set(short(c.path) for c in deleg)))
+            # ... and hands its result back as it is: a delegating poll method that inspects the inner result and rewrites it (a reset
+            # answered as a successful zero-byte read) turns an abort into an orderly end of stream
+            if okf:
+                same_c = same[0]
+                rewritten = not (same_c.dest and same_c.dest[0] == 0)
+                if rewritten and same_c.dest:
+                    tracked_, cons_ = flow_forward(g, [same_c.dest[0]], [])
+                    rewritten = any(kind in ("discr", "switch") for kind, b_, info_, l_ in cons_) or 0 not in tracked_
+                if rewritten:
+                    chk.instance("FWD", "%s:%s" % (g.file, g.line), "%s::%s of %s returns the inner result unchanged" % (tname, it["name"], sty), False)
+                    chk.finding("FWD", g.key, "result-rewritten", it["name"], "%s:%s" % (g.file, g.line),
+                                "%s::%s of %s inspects the result of the inner %s and builds its own: an error of the transport (a reset by "
+                                "the peer) can be answered as success, so an abort is relayed as an orderly end of stream" % (tname, it["name"], sty, it["name"]))
             if not okf:
                 chk.finding("FWD", g.key, "wrong-delegate", it["name"], "%s:%s" % (g.file, g.line),
                             "%s::%s of %s forwards to %s instead of the inner %s: %s" % (
